@@ -68,7 +68,7 @@ class GridMachine(Machine):
         "quick": {"faultFired": ["rejected_rescale"],
                   "probes": ["on_constraint_boundary", "rejected_then_accepted",
                              "rescale_count_ge5", "plain_grid", "uniform_spacing",
-                             "single_argument_rescale"]},
+                             "single_argument_rescale", "tiny_step_rescale"]},
         "thorough": {"faultFired": ["rejected_rescale"],
                      "probes": ["on_constraint_boundary", "rejected_then_accepted",
                                 "rescale_count_ge5", "plain_grid", "uniform_spacing"]},
@@ -183,6 +183,18 @@ class GridMachine(Machine):
                 elif which == "L":
                     step["L"] = p["L"] * rng.uniform(0.3, 0.999)  # tails stay admissible
                 return step
+            if roll < 0.4:
+                # a tiny step in all four arguments: a converging solver's last
+                # iterations (relative change 1e-9 ... 1e-5)
+                def nudge(v: float) -> float:
+                    return v * (1 + rng.choice([-1, 1]) * _logu(rng, 1e-9, 1e-5))
+                step = {"op": "rescale", "kind": "tiny", "L": nudge(p["L"]),
+                        "centre": nudge(p["centre"]) if p["centre"] else 0.0,
+                        "tailIn": nudge(p["tailIn"]), "tailOut": nudge(p["tailOut"])}
+                lim = _lim(step["L"], r, s)
+                step["tailIn"] = max(step["tailIn"], lim * (1 + 1e-6))
+                step["tailOut"] = max(step["tailOut"], lim * (1 + 1e-6))
+                return step
             L = _logu(rng, 1e-2, 1e2)
             centre = L * rng.uniform(-3, 3)
             if rng.random() < c["pEom"]:
@@ -295,6 +307,8 @@ class GridMachine(Machine):
                 self.ctx.probes["on_constraint_boundary"] += 1
             if str(step.get("kind", "")).startswith("one:"):
                 self.ctx.probes["single_argument_rescale"] += 1
+            if step.get("kind") == "tiny":
+                self.ctx.probes["tiny_step_rescale"] += 1
         else:
             self.params.update(L=step["L"])
         if self.lastRejected:
